@@ -111,7 +111,7 @@ def run(ctx: core.Ctx) -> None:
     ctx.rule = ("refinement ladders (nx, nt) = (20,200),(40,800),(80,3200)[,(160,12800)], quadratic grid to t = 4, per family "
                 "(class, table, p_f, p_i): sup-norm field error for t >= 0.01 weighted by the front slope sqrt(pi t), and recovery error, "
                 "against the Fourier series (constant diffusivity) or an independent 800-cell method-of-lines BDF solution "
-                "(pressure-dependent tables); judged by SchemeTrace.tla: FirstOrder (err * nx bounded), LadderShrinks (every rung <= 0.85 of the previous one, the finest pair <= 0.7); "
+                "(pressure-dependent tables); judged by SchemeTrace.tla: FirstOrder (err * nx bounded), LadderShrinks (every rung smaller than the previous one, the finest pair <= 0.7); "
                 "premises of the convergence theorem (consistency) checked exactly by TLC in Refine.tla, stability in Scheme.tla")
     ctx.assumptions += [
         "the limit itself is not decidable: the claim is first-order error at each rung, shrinking along the ladder, plus the exact "
